@@ -23,9 +23,15 @@ func (v *hasSideEffectVisitor) Visit(node ast.Node) (w ast.Visitor) {
 	}
 	switch n := node.(type) {
 	case *ast.CallExpr:
-		if _, isSig := v.info.TypeOf(n.Fun).(*types.Signature); isSig { // skip conversions
-			v.hasSideEffect = true
-			return nil
+		if tv, found := v.info.Types[n.Fun]; found && tv.IsType() {
+			break // a conversion: only its operand can have a side effect
+		}
+		if t := v.info.TypeOf(n.Fun); t != nil {
+			// The callee may have a defined function type (type F func()).
+			if _, isSig := t.Underlying().(*types.Signature); isSig {
+				v.hasSideEffect = true
+				return nil
+			}
 		}
 	case *ast.UnaryExpr:
 		if n.Op == token.ARROW {
